@@ -321,6 +321,14 @@ func c12Worker(ctx *core.Ctx) *core.Result {
 	} else {
 		res.Count("housekeeping_mode:none", 1)
 	}
+	// POSIX record locks (fcntl) belong to the process, not to the open
+	// file: contenders inside one process would never exclude each other, so
+	// the in-process exploration cannot judge such a SetLock.  Part (b)
+	// (separate processes, real cron script) still does.
+	if pts, err := os.ReadFile(filepath.Join(core.VerifDir, ".build", "lockpoints_main.go.points")); err == nil && strings.Contains(string(pts), "fcntl") {
+		res.Count("part_a_skipped:SetLock_uses_fcntl_record_locks", 1)
+		groups = nil
+	}
 	for gi, g := range groups {
 		names := g.names
 		n, expired := exploreLock(ctx, base, names, g.hk, g.bound, func(r *lockRun) {
